@@ -70,3 +70,62 @@ def call_base(fn, *a, **kw):
 
 def tb(e):
     return ''.join(traceback.format_exception(type(e), e, e.__traceback__))[-2000:]
+
+
+class StepBudgetExceeded(Exception):
+    """a single observed call started more Python functions than its (very generous) logical budget allows"""
+
+
+class StepBudget:
+    """logical non-termination guard: counts sys.monitoring PY_START events while a call is observed and raises
+    StepBudgetExceeded inside the running code once the budget is spent.  Deterministic (no wall clock): the same
+    evaluation always takes the same number of function starts."""
+    def __init__(self, budget=300000):
+        import sys
+        self.budget = budget
+        self.mon = getattr(sys, 'monitoring', None)
+        self.tool = None
+        self.count = 0
+        self.active = False
+        if self.mon is None:
+            return
+        for tid in (5, 4, 3, self.mon.OPTIMIZER_ID):
+            try:
+                self.mon.use_tool_id(tid, 'rv-step-budget')
+                self.tool = tid
+                break
+            except ValueError:
+                continue
+        if self.tool is not None:
+            self.mon.register_callback(self.tool, self.mon.events.PY_START, self._cb)
+
+    @property
+    def ok(self):
+        return self.tool is not None
+
+    def _cb(self, code, offset):
+        if self.active:
+            self.count += 1
+            if self.count > self.budget:
+                self.active = False
+                raise StepBudgetExceeded('more than %d function starts in one call' % self.budget)
+
+    def call(self, fn, *a, **kw):
+        if self.tool is None:
+            return call(fn, *a, **kw)
+        self.count = 0
+        self.active = True
+        self.mon.set_events(self.tool, self.mon.events.PY_START)
+        try:
+            return Outcome(True, fn(*a, **kw))
+        except Exception as e:
+            return Outcome(False, exc=e)
+        finally:
+            self.active = False
+            self.mon.set_events(self.tool, 0)
+
+    def close(self):
+        if self.tool is not None:
+            self.mon.set_events(self.tool, 0)
+            self.mon.free_tool_id(self.tool)
+            self.tool = None
